@@ -10,6 +10,7 @@ from visions.types.string import String
 
 # TODO: Evaluate https://jorisvandenbossche.github.io/blog/2019/08/13/geopandas-extension-array-refactor/
 @Geometry.register_relationship(String, pd.Series)
+@series_handle_nulls
 def string_is_geometry(sequence: pd.Series, state: dict) -> bool:
     """Shapely logs failures at a silly severity, just trying to suppress it's output on failures."""
     from shapely import wkt
@@ -41,7 +42,9 @@ def string_to_geometry(series: pd.Series, state: dict) -> pd.Series:
     from shapely import wkt
 
     return pd.Series(
-        [wkt.loads(value) for value in series], index=series.index, name=series.name
+        [value if pd.isna(value) else wkt.loads(value) for value in series],
+        index=series.index,
+        name=series.name,
     )
 
 
